@@ -35,3 +35,24 @@ Lemma C03_registries_shape :
   /\ (length confirmed_request_types, length complex_ack_types,
       length unconfirmed_request_types, length error_types) = (27, 12, 11, 8)%nat.
 Proof. vm_compute. split; reflexivity. Qed.
+
+From Bac Require Import CodecFacts.
+Lemma supported_or_listed : forall n t, In (n, t) all_named ->
+  supported t = true \/ In n unsupported_names.
+Proof.
+  intros n t Hin. destruct (supported t) eqn:E; [left; reflexivity|right].
+  unfold unsupported_names. apply in_map_iff. exists (n, t). split; [reflexivity|].
+  apply filter_In. split; [exact Hin|]. cbn [snd]. rewrite E. reflexivity.
+Qed.
+
+Lemma all_types_wf t : In t all_types -> wf_ty t = true.
+Proof. intros H. exact (proj1 (forallb_forall wf_ty all_types) C03_all_wf t H). Qed.
+
+Lemma tables_roundtrip : forall n t, In (n, t) all_named -> ~ In n unsupported_names ->
+  forall v ts rest, has_ty t v -> encode t v = Ok ts -> rest_ok (avoid t) rest ->
+  decode t (ts ++ rest) = Ok (v, rest).
+Proof.
+  intros n t Hin Hnot. destruct (supported_or_listed n t Hin) as [Hs|Hl]; [|contradiction].
+  apply roundtrip; [exact Hs|]. apply all_types_wf. unfold all_types.
+  apply in_map_iff. exists (n, t). auto.
+Qed.
